@@ -124,12 +124,23 @@ def h_prune(eng, grace_none=False, head=None, branch_at=None):
         shutil.rmtree(d, ignore_errors=True)
 
 
-def h_maintain(eng, op="pack_loose", head=None):
+def h_maintain(eng, op="pack_loose", head=None, loose_named=False):
     """pack_loose_objects / repack / garbage_collect on every storage layout: every reachable object is the same
     (type, bytes) afterwards, also for a re-opened repository"""
     d, r, g, roots = _mk(eng, layout=True, ncommits=2, fix={"head": head} if head is not None else None)
     try:
         want = closure(g["adj"], roots)
+        if loose_named:
+            # the packs carry the names "git maintenance run --task=loose-objects" gives them (loose-<hash>.pack/.idx)
+            import os as _os
+            pd = _os.path.join(d, "objects", "pack")
+            names = [f for f in _os.listdir(pd) if f.startswith("pack-")]
+            if not names:
+                eng.assume(False)
+            r.close()
+            for f in names:
+                _os.rename(_os.path.join(pd, f), _os.path.join(pd, "loose-" + f[len("pack-"):]))
+            r = Repo(d)
         if eng.bool("midx_written_before"):
             if list(r.object_store.packs):
                 r.object_store.write_midx()
@@ -146,6 +157,10 @@ def h_maintain(eng, op="pack_loose", head=None):
             r.object_store.repack()
         elif op == "gc0":
             GC.garbage_collect(r, prune=True, grace_period=None)
+        elif op == "prune0":
+            r.object_store.prune(grace_period=0)
+        elif op == "gc_grace0":
+            GC.garbage_collect(r, prune=True, grace_period=0)
         elif op == "gc_default":
             GC.garbage_collect(r)
         else:
@@ -203,10 +218,11 @@ def checks(tier):
                outside="float mtimes (modelled as integers)",
                assumptions=["time.time() and get_object_mtime() replaced by symbolic integers"], max_decisions=900, tiers=q),
         KCheck("C10c.maintenance", h_maintain,
-               parts=[{"op": o, "head": h} for o in ("pack_loose", "repack", "gc0", "gc_default", "gc_noprune") for h in range(3)],
+               parts=[{"op": o, "head": h} for o in ("pack_loose", "repack", "gc0", "gc_default", "gc_noprune") for h in range(3)] +
+                     [{"op": o, "head": 1, "loose_named": ln} for o in ("prune0", "gc_grace0", "gc_default") for ln in (False, True)],
                encoded=["dulwich.object_store.PackBasedObjectStore.pack_loose_objects/repack", "dulwich.gc.garbage_collect",
                         "dulwich.object_store.DiskObjectStore (re-open, lookup)"],
-               bounds="graphs of 2 commits as above; optionally a multi-pack-index written before the operation (left stale by it); history objects (commits, tags) and content objects (trees, blobs) each symbolically loose / packed / both; refs as above",
+               bounds="graphs of 2 commits as above; optionally a multi-pack-index written before the operation (left stale by it); history objects (commits, tags) and content objects (trees, blobs) each symbolically loose / packed / both; refs as above; also prune / gc with a zero grace period and packs named loose-<hash> as git maintenance writes them",
                outside="alternates; more than one pre-existing pack (thorough)", time_budget=2400, tiers=q),
     ]
 
